@@ -158,7 +158,10 @@ def shard_fn(shard, nshards, seed, tier, exe, ntrees, ndoubles):
             vals.append(v)
         toks.append("]")
         cid = "%d.d%d" % (shard, j)
-        cases.append((cid, ["B 0 " + " ".join(toks), "S 0 0", "S 0 4", "S 0 20", "PUT 0"]))
+        # ... and under a custom double format, with and without NOZERO: trimming zeros may change the text, never the value it denotes
+        # (e/g conversions only: an f conversion of 1e300 is longer than the 128 bytes json-c formats into and is cut off, by design, mid-number)
+        fmt = rng.choice([b"%.3e", b"%e", b"%.17e", b"%.5g", b"%.12g", b"%.0e"])
+        cases.append((cid, ["B 0 " + " ".join(toks), "S 0 0", "S 0 4", "S 0 20", "DFMT 0 x" + fmt.hex(), "S 0 0", "S 0 4", "S 0 6", "DFMT 0 -", "PUT 0"]))
         meta[cid] = ("doubles", toks, vals, 1, False)
     results, crashes = core.run_script(exe, cases, tag="c02", env=core.ambient_env(sh, shard))
     cmdmap = dict(cases)
@@ -172,6 +175,20 @@ def shard_fn(shard, nshards, seed, tier, exe, ntrees, ndoubles):
         if lines[0] != "= ok":
             raise core.Inconclusive("build failed: " + lines[0][:100] + " for " + cmdmap[cid][0][:200])
         if kind == "doubles":
+            fl = [l.split() for l in lines[5:8]]
+            if all(len(x) > 3 and x[1] != "null" for x in fl):
+                sh.evaluations += 2 * 256
+                sh.count("double_arrays_under_custom_format_with_and_without_NOZERO")
+                try:
+                    base = refjson.dump(refjson.parse(bytes.fromhex(fl[0][3][1:])))
+                    for k, x in ((4, fl[1]), (6, fl[2])):
+                        other = refjson.dump(refjson.parse(bytes.fromhex(x[3][1:])))
+                        if other != base:
+                            sh.violation("C02/custom-format-NOZERO-changes-value", "under the custom double format %s the text with flags %s denotes other values than the text without NOZERO: %r vs %r" % (
+                                cmdmap[cid][4].split()[2], fname(k), bytes.fromhex(x[3][1:])[:120], bytes.fromhex(fl[0][3][1:])[:120]), rep)
+                            break
+                except refjson.JSONError as e:
+                    sh.violation("C02/invalid-json/custom-format", "independent parser rejects the text produced under a custom double format: %s" % e, rep)
             for cmd, ln in zip(cmdmap[cid][1:4], lines[1:4]):
                 flags = int(cmd.split()[2])
                 f = ln.split()
